@@ -765,6 +765,10 @@ func init() {
 	}
 
 	objTmpls = []tmpl{
+		// a key the value itself has is not an "extra" key: looking it up gives the
+		// member, also when it is named like a decode value key (_format, _start, ...)
+		// and also when its value is null (seed C08-4)
+		safe(S("own-underscore-keys", 3, `[keys[] | select(startswith("_"))] as $ks | [$ks[] as $k | [$k, .[$k], has($k), getpath([$k])]]`, TArr)),
 		safe(S("keys-vs-length", 3, "[(keys | length) == length, ([.[]] | length) == length, (to_entries | length) == length, ([keys[] as $k | has($k)] | all), (keys | unique == sort)]", TArr)),
 		safe(F("has-near-keys", 3, func(g *qgen, vi vinfo) (string, vinfo) {
 			k, _, name := g.key(vi)
